@@ -113,7 +113,7 @@ func runC02(r *core.Run) {
 				s.DirectedAmbiguousPolls(6, i == 0)
 			}
 			if i == nops/4 {
-				s.DirectedBadOutputs() // every bad output construction through swap and mint, then the corrected request
+				s.DirectedBadOutputs()    // every bad output construction through swap and mint, then the corrected request
 				s.DirectedOwnInvoice(mpp) // the mint's own invoice in both spellings, plain and partial
 			}
 			s.RandomOp(cfg)
